@@ -447,8 +447,8 @@ type vRunOpts struct {
 	extraHook func(s *vSim) verifsim.MyHook
 }
 
-func vRun(t *testing.T, sc *vScenario, opt vRunOpts) *vRunResult {
-	res := &vRunResult{sc: sc, states: map[string]string{}, logs: map[string]string{}, files: map[string][]string{}}
+func vRun(t *testing.T, sc *vScenario, opt vRunOpts) (res *vRunResult) {
+	res = &vRunResult{sc: sc, states: map[string]string{}, logs: map[string]string{}, files: map[string][]string{}}
 	// a panic in a goroutine spawned by mysync itself (RunParallel, ...) cannot be
 	// recovered and kills the test binary: the scenario is recorded first so that the
 	// checker can attribute the crash and re-run the shard without it
